@@ -604,7 +604,7 @@ PROPS["C07"] = {'claimed': True,
          'slaves, lost requests/replies, malformed and unexpected replies, power cycles, user calls between bus events, time advances, fault-free '
          'tails), deduplicated; non-trivial = callbacks executed on the real master (transmit / reply / timeout steps)',
  'trusted_base': ['hand models coq/Model/Peripheral.v + DpMaster.v of src/dp/peripheral.rs, master.rs, peripheral_set.rs (after fix commits F4 F6 '
-                  'F10 F11), tied by transcript replay: every FdlApplication callback and API call of generated histories is executed on the real '
+                  'F10 F11 F12 F13 F14), tied by transcript replay: every FdlApplication callback and API call of generated histories is executed on the real '
                   'DpMaster and on the model, all outputs compared (TX bytes, events, is_live/is_running/pi_i/pi_q/last_diagnostics, operating '
                   'state)',
                   'reference slave coq/Model/Slave.v (environment, written against the PROFIBUS standard, not the crate) and its Rust twin in '
